@@ -42,11 +42,14 @@ def gen_case(rng, i, tier):
     ctor = ("mrhs" if S > 1 or i % 2 else "new")
     if ctor == "new":
         S = 1
+    if i % 4 == 1:
+        ctor += "_parallel"     # the parallel flavour must converge alike
     noise_rel = 0.0 if i % 2 == 0 else rng.choice([0.001, 0.01])
     if fam == "exp3o":
-        # three decays plus offset are certified only in double precision and up to 0.1 % noise (beyond that the problem is
-        # too ill-conditioned for the default tolerances: orthogonality degrades to ~0.1 on the pinned tree)
-        noise_rel = min(noise_rel, 0.001)
+        # three decays plus offset are certified only in double precision and without noise (with noise the problem is too
+        # ill-conditioned for the default tolerances: the optimizer stops on xtol with |cos| up to 0.08 at 1 % and 2e-3 at 0.1 %
+        # noise on the pinned tree)
+        noise_rel = 0.0
     spec = model_spec(x, basis, P, [round_to(t * (1 + rng.uniform(-0.04, 0.04)), sc) for t in truth], scalar=sc,
                       builder_made=(i % 5 == 1))
     Y = []
@@ -105,8 +108,8 @@ def metrics(c, r):
 THR = {"f64": {"cos": 1e-4, "noiseless_dev": 1e-9, "ssq_slack": 1e-6},
        "f32": {"cos": 0.2, "noiseless_dev": 1e-3, "ssq_slack": 1e-2}}
 CALIBRATION = ("3000 fits (seed 7) on the pinned tree: noisy f64 cos <= 2e-7, noisy f32 cos <= 1.8e-3, noiseless deviation <= 5e-15 (f64) / "
-               "2.4e-6 (f32), SSQ / SSQ(truth) <= 1 + 1e-6; three decays + offset at 1 % noise reached cos 0.08 (f64) and one f32 fit "
-               "stepped to a non-finite point: excluded from the certified ranges")
+               "2.4e-6 (f32), SSQ / SSQ(truth) <= 1 + 1e-6; three decays + offset with noise reached cos 0.08 (1 %) / 2e-3 (0.1 %, seed sweep) in f64 and one f32 fit "
+               "stepped to a non-finite point: certified without noise and in f64 only")
 
 
 def main(tier, seed, replay=None):
